@@ -20,7 +20,15 @@ Ltac norm_max_in H :=
   end.
 
 (* a fact about reals that follows from the hypotheses *)
-Ltac real_fact0 := first [ assumption | lra | nra | (intro; lra) | (intro; nra) | congruence ].
+Ltac real_fact0 := first [ assumption | lra | (intro; lra) | congruence | timeout 8 nra | (intro; timeout 8 nra) ].
+(* the cheap part only (no non-linear search): tried for P and for ~P before the expensive tactics are allowed to run *)
+Ltac cheap_fact0 := first [ assumption | lra | (intro; lra) | congruence ].
+Ltac cheap_fact :=
+  norm_dec; norm_max;
+  first [ cheap_fact0
+        | apply Rle_not_lt; cheap_fact0 | apply Rlt_not_le; cheap_fact0
+        | apply Rlt_not_eq; cheap_fact0 | apply Rgt_not_eq; cheap_fact0
+        | apply not_eq_sym; cheap_fact0 ].
 Ltac real_fact :=
   norm_dec; norm_max;
   first [ real_fact0
@@ -44,7 +52,11 @@ Ltac find_answers fact mk ds k :=
   let r := RUN_ (mk ds) in
   lazymatch r with
   | Need ?P =>
-      first [ (let H := fresh "Hdec" in assert (H : P) by fact;
+      first [ (let H := fresh "Hdec" in assert (H : P) by cheap_fact;
+               let ds' := eval cbv in (ds ++ [true])%list in find_answers fact mk ds' k)
+            | (let H := fresh "Hdec" in assert (H : ~ P) by cheap_fact;
+               let ds' := eval cbv in (ds ++ [false])%list in find_answers fact mk ds' k)
+            | (let H := fresh "Hdec" in assert (H : P) by fact;
                let ds' := eval cbv in (ds ++ [true])%list in find_answers fact mk ds' k)
             | (let H := fresh "Hdec" in assert (H : ~ P) by fact;
                let ds' := eval cbv in (ds ++ [false])%list in find_answers fact mk ds' k)
